@@ -10,8 +10,8 @@ from . import common
 
 ID = "C04"
 LEVEL = "fault_enumeration"
-BUDGET = {"quick": 320, "thorough": 6400}
-WALL_CAP = {"quick": 420, "thorough": 3300}
+BUDGET = {"quick": 1600, "thorough": 32000}
+WALL_CAP = {"quick": 600, "thorough": 5400}
 RULE = ("case = generated 2D/3D plotfile x drawn level limit; storage-fault operators (delete/truncate/extend/insert/"
         "remove bytes of a binary, rewrite FAB header index range or component count with and without resizing the "
         "payload, delete/duplicate/garble/retarget index and FabOnDisk lines, change announced counts, drop a box "
